@@ -170,31 +170,7 @@ func runC23(c *Ctx) {
 		c.Check(okVal, "P1-as-entry", v.Name()+":validate-by-egress", v.Fn.Pos(),
 			"egress 0 ⇒ validated as terminated segment, otherwise as beacon")
 	}
-	if hv := c.View(eT + ".createHopF"); hv != nil {
-		hv.RequireCallArgs("M1-hop-field-mac", 1, "pkg/slayers/path.MACInput", "arg4", "pkg/private/util.TimeToSecs(arg3)",
-			"arg2", "arg0", "arg1", "local:makeslice[:16]")
-		hv.RequireStore("M1-hop-field-mac", 1, "local:complit.ConsIngress", "arg0")
-		hv.RequireStore("M1-hop-field-mac", 1, "local:complit.ConsEgress", "arg1")
-		hv.RequireStore("M1-hop-field-mac", 1, "local:complit.ExpTime", "arg2")
-		hv.RequireCallArgs("M1-hop-field-mac", 1, "invoke:hash.Hash.Write", "dyn:recv.MAC()", "local:makeslice[:16]")
-		mi := hv.Calls("pkg/slayers/path.MACInput")
-		wr := hv.Calls("invoke:hash.Hash.Write")
-		c.Check(len(mi) == 1 && len(wr) == 1 && instrDominates(mi[0].In.(ssa.Instruction), wr[0].In.(ssa.Instruction)),
-			"M1-hop-field-mac", hv.Name()+":input-then-mac", hv.Fn.Pos(), "MACInput fills the buffer before it is MACed")
-	}
-	for _, q := range []string{eT + ".createHopEntry", eT + ".createPeerEntry"} {
-		if hv := c.View(q); hv != nil {
-			hv.RequireCallArgs("M1-hop-field-mac", 1, eT+".createHopF", "recv", "arg0", "arg1", "arg2", "arg3", "arg4")
-			call := eT + ".createHopF(recv, arg0, arg1, arg2, arg3, arg4)#0"
-			hv.RequireStore("M1-hop-field-mac", 1, "local:complit.ConsIngress", call+".ConsIngress")
-			hv.RequireStore("M1-hop-field-mac", 1, "local:complit.ConsEgress", call+".ConsEgress")
-			hv.RequireStore("M1-hop-field-mac", 1, "local:complit.ExpTime", call+".ExpTime")
-			hv.RequireStore("M1-hop-field-mac", 1, "local:complit.MAC", call+".Mac")
-		}
-	}
-	if pv := c.View(eT + ".createPeerEntries"); pv != nil {
-		pv.RequireCallArgs("M1-hop-field-mac", 1, eT+".createPeerEntry", "recv", "arg1[*]", "arg0", "arg2", "arg3", "arg4")
-	}
+	hopFieldMacRule(c, eT)
 	if bv := c.View("control/beaconing.extractBeta"); bv != nil {
 		for _, b := range bv.Fn.Blocks {
 			if r, ok := b.Instrs[len(b.Instrs)-1].(*ssa.Return); ok {
@@ -245,4 +221,34 @@ func segIDXorRule(c *Ctx, v *FnView, rule string) {
 	}
 	c.Check(ok && n >= 1, rule, v.Name()+":xor-with-mac-prefix", v.Fn.Pos(),
 		fmt.Sprintf("%d XOR update(s), each with BigEndian.Uint16 of a hop MAC", n))
+}
+
+// hopFieldMacRule (shared with C04): the control plane MACs exactly the values
+// it publishes in the hop field.
+func hopFieldMacRule(c *Ctx, eT string) {
+	if hv := c.View(eT + ".createHopF"); hv != nil {
+		hv.RequireCallArgs("M1-hop-field-mac", 1, "pkg/slayers/path.MACInput", "arg4", "pkg/private/util.TimeToSecs(arg3)",
+			"arg2", "arg0", "arg1", "local:makeslice[:16]")
+		hv.RequireStore("M1-hop-field-mac", 1, "local:complit.ConsIngress", "arg0")
+		hv.RequireStore("M1-hop-field-mac", 1, "local:complit.ConsEgress", "arg1")
+		hv.RequireStore("M1-hop-field-mac", 1, "local:complit.ExpTime", "arg2")
+		hv.RequireCallArgs("M1-hop-field-mac", 1, "invoke:hash.Hash.Write", "dyn:recv.MAC()", "local:makeslice[:16]")
+		mi := hv.Calls("pkg/slayers/path.MACInput")
+		wr := hv.Calls("invoke:hash.Hash.Write")
+		c.Check(len(mi) == 1 && len(wr) == 1 && instrDominates(mi[0].In.(ssa.Instruction), wr[0].In.(ssa.Instruction)),
+			"M1-hop-field-mac", hv.Name()+":input-then-mac", hv.Fn.Pos(), "MACInput fills the buffer before it is MACed")
+	}
+	for _, q := range []string{eT + ".createHopEntry", eT + ".createPeerEntry"} {
+		if hv := c.View(q); hv != nil {
+			hv.RequireCallArgs("M1-hop-field-mac", 1, eT+".createHopF", "recv", "arg0", "arg1", "arg2", "arg3", "arg4")
+			call := eT + ".createHopF(recv, arg0, arg1, arg2, arg3, arg4)#0"
+			hv.RequireStore("M1-hop-field-mac", 1, "local:complit.ConsIngress", call+".ConsIngress")
+			hv.RequireStore("M1-hop-field-mac", 1, "local:complit.ConsEgress", call+".ConsEgress")
+			hv.RequireStore("M1-hop-field-mac", 1, "local:complit.ExpTime", call+".ExpTime")
+			hv.RequireStore("M1-hop-field-mac", 1, "local:complit.MAC", call+".Mac")
+		}
+	}
+	if pv := c.View(eT + ".createPeerEntries"); pv != nil {
+		pv.RequireCallArgs("M1-hop-field-mac", 1, eT+".createPeerEntry", "recv", "arg1[*]", "arg0", "arg2", "arg3", "arg4")
+	}
 }
